@@ -2,20 +2,26 @@ package c05
 
 import (
 	"bytes"
-	"fmt"
-	"strings"
+	"hash/fnv"
 
 	"pgregory.net/rapid"
 
 	"github.com/wundergraph/graphql-go-tools/v2/pkg/ast"
-	"github.com/wundergraph/graphql-go-tools/v2/pkg/astparser"
-	"github.com/wundergraph/graphql-go-tools/v2/pkg/astprinter"
 	"github.com/wundergraph/graphql-go-tools/v2/pkg/lexer"
 	"github.com/wundergraph/graphql-go-tools/v2/pkg/lexer/keyword"
-	"github.com/wundergraph/graphql-go-tools/v2/pkg/operationreport"
 
 	"verif/harness/pbt"
 )
+
+// bytes part (DESIGN §4 C05 clauses 1–3 and 5 on arbitrary input): byte strings biased to
+// GraphQL tokens. Three generator modes: token soup; a grammar-generated document damaged by
+// a few byte/token-level mutations (keeps most of the structure, so a large share is still
+// accepted and exercises the printer on documents nobody would write); a hostile constant
+// damaged the same way.
+//
+// Oracle: the parser returns (no panic; the liveness watchdog is only a watchdog); an accepted
+// input has all references in bounds and round-trips (compact and indented); with limits
+// derived from the input, ParseWithLimits never accepts an over-limit document.
 
 type bytesCase struct {
 	In pbt.Bytes `json:"in"`
@@ -25,14 +31,35 @@ var tokens = []string{
 	"{", "}", "(", ")", "[", "]", ":", "=", "!", "|", "&", "@", "$", "...", ",", " ", "\n", "\t", "#c\n", "\ufeff",
 	"query", "mutation", "subscription", "fragment", "on", "type", "interface", "union", "enum", "input", "scalar",
 	"schema", "extend", "directive", "implements", "repeatable", "true", "false", "null",
-	"a", "b", "T", "Int", "x1", "_y", "__typename",
-	"0", "-1", "1.5", "1e5", "-0.0e-3", "1e", "1.", "-", "00", "0x1",
-	`"s"`, `""`, `"é"`, `"\n\"q"`, `"😀"`, `"`, `"\`, `"\x"`, `"\u12"`,
-	`"""b"""`, `"""`, `""""""`, "\"\"\"\n  a\n   b\n\"\"\"", `"""a\"""b"""`, `"""a" """`,
-	"\x00", "\xff", "é", "\r",
+	"a", "b", "T", "Int", "x1", "_y", "__typename", "FIELD", "OBJECT",
+	"0", "-1", "1.5", "1e5", "-0.0e-3", "1e", "1.", "-", "00", "0x1", "1e-5", "1.5-3", "a-1",
+	`"s"`, `""`, `"é"`, `"\n\"q"`, `"😀"`, `"`, `"\`, `"\x"`, `"\u12"`, `"\uD83D"`,
+	`"""b"""`, `"""`, `""""""`, "\"\"\"\n  a\n   b\n\"\"\"", `"""a\"""b"""`, `"""a" """`, `""" "" """`, "\"\"\" a\n\"\"\"", `"""\`,
+	"\x00", "\xff", "é", "\r", "\r\n", "\\", "'",
 }
 
-func genBytes(t *rapid.T) bytesCase {
+// hostile constants: inputs that look for trouble at the edges of the lexer and parser (also
+// the seed corpus of the native fuzz target).
+var hostile = []string{
+	``, ` `, `{`, `}`, `{}`, `{ a }`, `{{{{{{{{{{`, `[[[[[[[[[[`, `query`, `query Q`, `query Q(`, `query Q($a`, `query Q($a:`, `{ a(`, `{ a(b:`, `{ a(b: [`, `{ a(b: {`, `{ a(b: {c:`,
+	`{ a @`, `{ ...`, `{ ... on`, `{ ...on }`, `fragment`, `fragment on on on { on }`, `{ on }`, `{ query mutation subscription fragment }`,
+	`{ a(x: -) }`, `{ a(x: - 1) }`, `{ a(x: $) }`, `{ a(x: $ a) }`, `{ a(x: 1.) }`, `{ a(x: .5) }`, `{ a(x: 1e) }`, `{ a(x: 1e-5) }`, `{ a(x: 1E+5) }`, `{ a(x: 0e) }`, `{ a(x: 01) }`, `{ a(x: 1a) }`, `{ a(x: 1.5-3) }`,
+	`{ a(x: "`, `{ a(x: "\`, `{ a(x: "\"`, `{ a(x: "\u`, `{ a(x: "\u12") }`, "{ a(x: \"abc\n) }", "{ a(x: \"a\x00b\") }", "{ a(x: \"0\x00) }",
+	`{ a(x: """`, `{ a(x: """"`, `{ a(x: """"") }`, `{ a(x: """""") }`, `{ a(x: """a" """) }`, `{ a(x: """a "" """) }`, `{ a(x: """a\"""""") }`, `{ a(x: """\""") }`, "{ a(x: \"\"\"\n    a\n  b\n\"\"\") }", `{ a(x: """ """) }`, "{ a(x: \"\"\"\\\n\"\"\") }",
+	"\"000000\x00type A", `"" type T`, `"d" "e" type T`, `"d"`, `"""d"""`, `"d" {a}`, `"d" extend type T @a`, `"d" schema { query: Q }`,
+	`schema { }`, `schema @a { }`, `extend schema { }`, `extend schema @a`, `extend schema`, `schema { query: }`, `schema { query Q }`, `schema { foo: Q }`,
+	`type T`, `type T { }`, `type T implements`, `type T implements &`, `type T implements A &`, `type T implements A B`, `type T implements A type U`, `type T implements A & B @d { a: Int }`,
+	`type T { a: }`, `type T { a: [ }`, `type T { a: [Int }`, `type T { a: Int!! }`, `type T { a(: Int }`, `type T { a( ): Int }`, `type T { a(b: Int = ): Int }`, `type T { "d" }`,
+	`extend type T`, `extend type T implements A`, `extend`, `extend foo`, `extend interface I implements J { a: Int }`,
+	`union U`, `union U =`, `union U = |`, `union U = | A |`, `union U = A | B union V`, `enum E`, `enum E { }`, `enum E { true }`, `enum E { A @d B "x" C }`, `input I`, `input I { }`, `input I { a: Int = {b: [1, {c: null}]} @d }`,
+	`scalar`, `scalar S @`, `scalar S @d(`, `directive`, `directive @`, `directive @d`, `directive @d on`, `directive @d on |`, `directive @d on FIELD |`, `directive @d on FOO`, `directive @d repeatable`, `directive @d(a: Int) repeatable on FIELD | OBJECT`, `directive @d( ) on FIELD`,
+	`query Q($a: Int = 1 @d, $b: [Int!]! @e @f) @g { a }`, `query ( ) { a }`, `query @d { a }`, `query Q("d" $a: Int) { a }`, `"d" query Q { a }`, `"d" fragment F on T { a }`,
+	`{ ... { a } ... @a { b } ... on T @b { c } ...F @c }`, `{ a: b: c }`, `{ a: }`, `{ :a }`, `{ a b: c(d: $e) @f(g: [1 2, 3]) { h } }`, `{ a(x: [1 2 [3] {a: {b: []}} {}]) }`,
+	"\ufeff{ a }", "{ a }\ufeff", "#", "# c", "#\n#\n{ a }#", "{ a #\n}", "{ a # }", "#a\x00#b\n{ a }", "{ a }\x00 garbage", "\x00", "\xff\xfe", "{ \xff }", "{ é }", "{ a\r\nb\rc }", ",,,{,a,,b,},,,",
+	`subscription { a } mutation M { b } { c }`, `query A { a } query B { b } fragment F on T { ...F }`,
+}
+
+func genSoup(t *rapid.T) []byte {
 	n := rapid.IntRange(0, 40).Draw(t, "n")
 	var b bytes.Buffer
 	for i := 0; i < n; i++ {
@@ -45,7 +72,64 @@ func genBytes(t *rapid.T) bytesCase {
 			b.WriteByte(' ')
 		}
 	}
-	return bytesCase{In: b.Bytes()}
+	return b.Bytes()
+}
+
+// mutate damages in with k byte/token-level edits.
+func mutate(t *rapid.T, in []byte, k int) []byte {
+	out := append([]byte(nil), in...)
+	for i := 0; i < k; i++ {
+		pos := 0
+		if len(out) > 0 {
+			pos = rapid.IntRange(0, len(out)).Draw(t, "pos")
+		}
+		switch rapid.IntRange(0, 6).Draw(t, "mutation") {
+		case 0: // insert a token
+			tok := rapid.SampledFrom(tokens).Draw(t, "instok")
+			out = append(out[:pos], append([]byte(tok), out[pos:]...)...)
+		case 1: // delete a span
+			n := rapid.IntRange(1, 6).Draw(t, "dellen")
+			if pos+n > len(out) {
+				n = len(out) - pos
+			}
+			out = append(out[:pos], out[pos+n:]...)
+		case 2: // duplicate a span
+			n := rapid.IntRange(1, 12).Draw(t, "duplen")
+			if pos+n > len(out) {
+				n = len(out) - pos
+			}
+			span := append([]byte(nil), out[pos:pos+n]...)
+			out = append(out[:pos], append(span, out[pos:]...)...)
+		case 3: // overwrite one byte
+			if pos < len(out) {
+				out[pos] = rapid.Byte().Draw(t, "byte")
+			}
+		case 4: // truncate
+			out = out[:pos]
+		case 5: // insert white space / ignored tokens
+			ws := rapid.SampledFrom([]string{" ", "\n", ",", "\t", "\r", "#x\n", "\x00"}).Draw(t, "ws")
+			out = append(out[:pos], append([]byte(ws), out[pos:]...)...)
+		default: // swap with a structural character
+			if pos < len(out) {
+				out[pos] = rapid.SampledFrom([]byte("{}()[]:=!|&@$\"\\.-#, \n")).Draw(t, "structural")
+			}
+		}
+	}
+	return out
+}
+
+func genBytes(t *rapid.T) bytesCase {
+	switch rapid.IntRange(0, 9).Draw(t, "bytesmode") {
+	case 0, 1, 2, 3:
+		return bytesCase{In: genSoup(t)}
+	case 4, 5, 6, 7, 8:
+		kind := rapid.SampledFrom([]string{"exec", "exec", "schema", "schema", "mixed"}).Draw(t, "dockind")
+		dc := genDocWith(t, genOpts{maxSelDepth: 3, maxSel: 3, maxDefs: 3, wild: rapid.IntRange(0, 3).Draw(t, "wild") == 0}, kind)
+		return bytesCase{In: mutate(t, []byte(dc.Src), rapid.IntRange(1, 3).Draw(t, "nmut"))}
+	default:
+		h := rapid.SampledFrom(hostile).Draw(t, "hostile")
+		return bytesCase{In: mutate(t, []byte(h), rapid.IntRange(0, 2).Draw(t, "nmut"))}
+	}
 }
 
 var bytesPart = pbt.Part[bytesCase]{Name: "bytes-total", Quick: 300000, Thorough: 6000000, Gen: genBytes, Check: checkBytes}
@@ -66,153 +150,40 @@ func countTokens(in []byte) int {
 	return n
 }
 
+// limitsFor derives a limits pair from the input (a pure function of the case).
+func limitsFor(in []byte) (L, F int) {
+	h := fnv.New32a()
+	h.Write(in)
+	x := h.Sum32()
+	return int(x % 5), int((x / 5) % 8) // 0 = unlimited
+}
+
 func checkBytes(c bytesCase, o *pbt.Rec) pbt.Verdict {
-	in := []byte(c.In)
-	if countTokens(in) >= 3 {
-		o.NonTrivial(string(in))
+	return checkInput("bytes-total", []byte(c.In), o, o.NonTrivial)
+}
+
+// checkInput is the oracle shared by the bytes part and the native fuzz target.
+func checkInput(part string, in []byte, o labeler, nonTrivial func(string)) pbt.Verdict {
+	defer enter(part, in)()
+	if countTokens(in) >= 3 && nonTrivial != nil {
+		nonTrivial(string(in))
 	}
-	doc := ast.NewSmallDocument()
-	doc.Input.ResetInputBytes(in)
-	var rep operationreport.Report
-	astparser.NewParser().Parse(doc, &rep)
+	L, F := limitsFor(in)
+	if v := checkLimits(in, L, F, o); v.Msg != "" {
+		return v
+	}
+	doc, rep := parseBytes(in)
 	if rep.HasErrors() {
 		o.Label("bytes:rejected")
 		return pbt.OK
 	}
 	o.Label("bytes:accepted")
-	if v := checkRefs(doc, len(in)); v != "" {
-		return pbt.Bad("accepted document has out-of-bounds reference: %s (input %q)", v, in)
+	v, _, shape := checkAccepted(doc, in, o, nil)
+	if shape != nil && nonTrivialShape(shape) {
+		o.Label("bytes:accepted-with->=5-nodes-of->=3-kinds")
 	}
-	return roundTrip(doc, in, o)
+	if bytes.IndexByte(in, 0) >= 0 {
+		o.Label("bytes:accepted-with-nul")
+	}
+	return v
 }
-
-// checkRefs verifies that every byte-slice reference of every node kind the parser fills
-// lies inside the input.
-func checkRefs(doc *ast.Document, n int) string {
-	chk := func(what string, i int, r ast.ByteSliceReference) string {
-		if r.Start > r.End || int(r.End) > len(doc.Input.RawBytes) {
-			return fmt.Sprintf("%s[%d] = [%d,%d) outside input of %d bytes", what, i, r.Start, r.End, len(doc.Input.RawBytes))
-		}
-		return ""
-	}
-	for i, x := range doc.Fields {
-		if s := chk("Field.Name", i, x.Name); s != "" {
-			return s
-		}
-		if s := chk("Field.Alias", i, x.Alias.Name); s != "" {
-			return s
-		}
-	}
-	for i, x := range doc.Arguments {
-		if s := chk("Argument.Name", i, x.Name); s != "" {
-			return s
-		}
-	}
-	for i, x := range doc.StringValues {
-		if s := chk("StringValue", i, x.Content); s != "" {
-			return s
-		}
-	}
-	for i, x := range doc.IntValues {
-		if s := chk("IntValue", i, x.Raw); s != "" {
-			return s
-		}
-	}
-	for i, x := range doc.FloatValues {
-		if s := chk("FloatValue", i, x.Raw); s != "" {
-			return s
-		}
-	}
-	for i, x := range doc.EnumValues {
-		if s := chk("EnumValue", i, x.Name); s != "" {
-			return s
-		}
-	}
-	for i, x := range doc.VariableValues {
-		if s := chk("VariableValue", i, x.Name); s != "" {
-			return s
-		}
-	}
-	for i, x := range doc.ObjectFields {
-		if s := chk("ObjectField", i, x.Name); s != "" {
-			return s
-		}
-	}
-	for i, x := range doc.Directives {
-		if s := chk("Directive", i, x.Name); s != "" {
-			return s
-		}
-	}
-	for i, x := range doc.Types {
-		if s := chk("Type", i, x.Name); s != "" {
-			return s
-		}
-	}
-	for i, x := range doc.OperationDefinitions {
-		if s := chk("Operation", i, x.Name); s != "" {
-			return s
-		}
-	}
-	for i, x := range doc.FragmentDefinitions {
-		if s := chk("FragmentDefinition", i, x.Name); s != "" {
-			return s
-		}
-	}
-	for i, x := range doc.FragmentSpreads {
-		if s := chk("FragmentSpread", i, x.FragmentName); s != "" {
-			return s
-		}
-	}
-	_ = n
-	return ""
-}
-
-func roundTrip(doc *ast.Document, in []byte, o *pbt.Rec) pbt.Verdict {
-	for _, indent := range []bool{false, true} {
-		var p1 string
-		var err error
-		if indent {
-			p1, err = astprinter.PrintStringIndent(doc, "  ")
-		} else {
-			p1, err = astprinter.PrintString(doc)
-		}
-		if err != nil {
-			return pbt.Bad("printing an accepted document fails: %v (input %q)", err, in)
-		}
-		d2, rep := astparser.ParseGraphqlDocumentString(p1)
-		if rep.HasErrors() {
-			if f := classifyReparse(in, p1); f != "" {
-				return pbt.BadKnown(f, "print of accepted input does not re-parse: input %q print %q: %s", in, p1, rep.Error())
-			}
-			return pbt.Bad("print of accepted input does not re-parse: input %q print %q: %s", in, p1, rep.Error())
-		}
-		var p2 string
-		if indent {
-			p2, _ = astprinter.PrintStringIndent(&d2, "  ")
-		} else {
-			p2, _ = astprinter.PrintString(&d2)
-		}
-		if p2 != p1 {
-			if f := classifyReparse(in, p1); f != "" {
-				return pbt.BadKnown(f, "print is not a fixed point: input %q p1 %q p2 %q", in, p1, p2)
-			}
-			return pbt.Bad("print is not a fixed point: input %q p1 %q p2 %q", in, p1, p2)
-		}
-	}
-	return pbt.OK
-}
-
-// classifyReparse attributes a round-trip failure to a recorded finding (recognisers are
-// deliberately narrow; see known_findings.json).
-func classifyReparse(in []byte, print string) string {
-	s := string(in)
-	switch {
-	case bytes.IndexByte(in, 0) >= 0:
-		return "C05-nul-byte-in-string"
-	case strings.Contains(s, `"""`):
-		return "C05-block-string-quotes"
-	}
-	return ""
-}
-
-func probes() pbt.Probes { return pbt.Probes{} }
